@@ -429,6 +429,134 @@ fn dom_bounded_inner(tier: &str, seed: u64) {
         samples.join(","), viol.join(","));
 }
 
+// ---------------------------------------------------------------------------------------------
+// value_expr: Expression::propagate_values on small expression trees (C06 stage 2, BOUNDED stand-in).
+// truth: the actual value of each variable; env: a sound value environment (an entry, when present, is the truth).
+#[derive(Clone, Debug, PartialEq)]
+enum Tv { F(BigInt), B(bool) }
+
+fn sem_v(e: &Expression, truth: &dyn Fn(&VariableName) -> Tv, p: &BigInt) -> Option<Tv> {
+    use Expression::*;
+    let infix_name = |op: &ExpressionInfixOpcode| INFIX.iter().find(|(o, _)| o == op).map(|(_, n)| *n).unwrap();
+    match e {
+        Number(_, v) => Some(Tv::F(emod(v, p))),
+        Variable { name, .. } => Some(truth(name)),
+        InfixOp { lhe, infix_op, rhe, .. } => {
+            let (l, r) = (sem_v(lhe, truth, p)?, sem_v(rhe, truth, p)?);
+            match (l, r) {
+                (Tv::F(a), Tv::F(b)) => {
+                    let f = infix_name(infix_op);
+                    if f == "-" { return None; }
+                    let exp = expected(f, &a, &b, p)?;
+                    let v = exp.iter().find_map(|o| if let Out::Val(v) = o { Some(v.clone()) } else { None })?;
+                    if ["lesser_eq", "greater_eq", "lesser", "greater", "eq", "not_eq"].contains(&f) { Some(Tv::B(v.is_one())) } else { Some(Tv::F(v)) }
+                }
+                (Tv::B(x), Tv::B(y)) => match infix_op { ExpressionInfixOpcode::BoolAnd => Some(Tv::B(x && y)), ExpressionInfixOpcode::BoolOr => Some(Tv::B(x || y)), _ => None },
+                _ => None,
+            }
+        }
+        PrefixOp { prefix_op, rhe, .. } => match (prefix_op, sem_v(rhe, truth, p)?) {
+            (ExpressionPrefixOpcode::Sub, Tv::F(a)) => Some(Tv::F(emod(&(-a), p))),
+            (ExpressionPrefixOpcode::Complement, Tv::F(a)) => Some(Tv::F(emod(&(pow2(256) - 1 - a), p))),
+            (ExpressionPrefixOpcode::BoolNot, Tv::B(x)) => Some(Tv::B(!x)),
+            _ => None,
+        },
+        SwitchOp { cond, if_true, if_false, .. } => {
+            let c = match sem_v(cond, truth, p)? { Tv::B(b) => b, Tv::F(v) => !v.is_zero() };
+            if c { sem_v(if_true, truth, p) } else { sem_v(if_false, truth, p) }
+        }
+        // a phi has the value of one of its arguments, depending on the path taken: a claim must hold for all of them
+        Phi { .. } => None,
+        _ => None,
+    }
+}
+
+fn claim_of(e: &Expression) -> Option<Tv> {
+    e.value().map(|v| match v { ValueReduction::FieldElement { value } => Tv::F(value.clone()), ValueReduction::Boolean { value } => Tv::B(*value) })
+}
+
+/// the first node (post-order) whose claimed constant is not its value under `truth`
+fn first_unsound_v<'a>(e: &'a Expression, truth: &dyn Fn(&VariableName) -> Tv, p: &BigInt) -> Option<(&'a Expression, String)> {
+    for c in children(e) { if let Some(b) = first_unsound_v(c, truth, p) { return Some(b); } }
+    if let Some(claim) = claim_of(e) {
+        if let Expression::Phi { args, .. } = e {
+            for a in args { if truth(a) != claim { return Some((e, format!("claims {:?} but argument {:?} has value {:?}", claim, a, truth(a)))); } }
+            return None;
+        }
+        match sem_v(e, truth, p) {
+            Some(v) if v == claim => None,
+            Some(v) => Some((e, format!("claims {:?}, Circom's semantics gives {:?}", claim, v))),
+            None => Some((e, format!("claims {:?} for an expression whose value is undefined or not a constant of this kind", claim))),
+        }
+    } else { None }
+}
+
+fn value_expr(tier: &str) {
+    use Expression::*;
+    let m = || Meta::default();
+    let curve = Curve::Bn254;
+    let p = UsefulConstants::new(&curve).prime().clone();
+    let va = VariableName::from_string("a");
+    let vb = VariableName::from_string("b");
+    let lits: Vec<BigInt> = vec![BigInt::zero(), BigInt::one(), BigInt::from(5), &p - 1];
+    let mut leaves: Vec<Expression> = lits.iter().map(|v| Number(m(), v.clone())).collect();
+    leaves.push(Variable { meta: m(), name: va.clone() });
+    leaves.push(Variable { meta: m(), name: vb.clone() });
+    let ops: Vec<ExpressionInfixOpcode> = if tier == "thorough" { INFIX.iter().map(|(o, _)| *o).collect() } else {
+        vec![ExpressionInfixOpcode::Add, ExpressionInfixOpcode::Div, ExpressionInfixOpcode::IntDiv, ExpressionInfixOpcode::ShiftR, ExpressionInfixOpcode::Lesser, ExpressionInfixOpcode::Eq, ExpressionInfixOpcode::BoolAnd] };
+    let mut d1: Vec<Expression> = vec![];
+    for l in &leaves { for r in &leaves { for op in &ops { d1.push(InfixOp { meta: m(), lhe: Box::new(l.clone()), infix_op: *op, rhe: Box::new(r.clone()) }); } } }
+    for l in &leaves { for op in [ExpressionPrefixOpcode::Sub, ExpressionPrefixOpcode::Complement, ExpressionPrefixOpcode::BoolNot] { d1.push(PrefixOp { meta: m(), prefix_op: op, rhe: Box::new(l.clone()) }); } }
+    d1.push(Phi { meta: m(), args: vec![va.clone()] });
+    d1.push(Phi { meta: m(), args: vec![va.clone(), vb.clone()] });
+    let cmp = |l: &Expression, r: &Expression, op| InfixOp { meta: m(), lhe: Box::new(l.clone()), infix_op: op, rhe: Box::new(r.clone()) };
+    let mut shapes: Vec<Expression> = leaves.clone();
+    shapes.extend(d1.iter().cloned());
+    // ternaries with field and boolean conditions, boolean connectives of comparisons, one more level of arithmetic
+    for c in &leaves { for t in &leaves[..3] { for f in &leaves[3..] { shapes.push(SwitchOp { meta: m(), cond: Box::new(c.clone()), if_true: Box::new(t.clone()), if_false: Box::new(f.clone()) }); } } }
+    for l in &leaves { for r in &leaves {
+        let c = cmp(l, r, ExpressionInfixOpcode::Lesser);
+        shapes.push(SwitchOp { meta: m(), cond: Box::new(c.clone()), if_true: Box::new(leaves[1].clone()), if_false: Box::new(leaves[4].clone()) });
+        shapes.push(PrefixOp { meta: m(), prefix_op: ExpressionPrefixOpcode::BoolNot, rhe: Box::new(c.clone()) });
+        shapes.push(cmp(&c, &cmp(r, l, ExpressionInfixOpcode::Eq), ExpressionInfixOpcode::BoolOr));
+        shapes.push(cmp(&cmp(l, r, ExpressionInfixOpcode::Sub), &leaves[2], ExpressionInfixOpcode::Mul));
+    } }
+    let tvals: Vec<Tv> = vec![Tv::F(BigInt::zero()), Tv::F(BigInt::from(5)), Tv::F(&p - 1), Tv::B(true)];
+    let mut evals = 0u64; let mut nontrivial = 0u64;
+    let mut viol: Vec<String> = vec![]; let mut seen_ob: std::collections::BTreeSet<String> = Default::default();
+    let mut samples: Vec<String> = vec![];
+    for ta in &tvals { for ea in [false, true] { for tb in &tvals { for eb in [false, true] {
+        let constants = UsefulConstants::new(&curve);
+        let mut env0 = ValueEnvironment::new(&constants);
+        let to_vr = |t: &Tv| match t { Tv::F(v) => ValueReduction::FieldElement { value: v.clone() }, Tv::B(b) => ValueReduction::Boolean { value: *b } };
+        if ea { env0.add_variable(&va, &to_vr(ta)); }
+        if eb { env0.add_variable(&vb, &to_vr(tb)); }
+        let truth = |n: &VariableName| -> Tv { if *n == va { ta.clone() } else { tb.clone() } };
+        for sh in &shapes {
+            let mut e = sh.clone();
+            let mut env = env0.clone();
+            let r = catch_unwind(AssertUnwindSafe(|| { for _ in 0..6 { if !e.propagate_values(&mut env) { break; } } e }));
+            evals += 1;
+            let e = match r { Ok(e) => e, Err(_) => { let ob = "value_expr|Expression::propagate_values|bounded|panic".to_string(); if seen_ob.insert(ob.clone()) { viol.push(format!("{{\"unit\":\"value_expr\",\"fn\":\"Expression::propagate_values\",\"obligation\":{},\"what\":{},\"replay\":\"replay_ps bounded value_expr\"}}", jstr(&ob), jstr(&format!("propagate_values panicked on {:?} with a = {:?}, b = {:?}", sh, ta, tb)))); } continue; } };
+            if e.value().is_some() { nontrivial += 1; }
+            if evals % 40009 == 1 && samples.len() < 8 { samples.push(format!("{{\"expr\":{},\"a\":{},\"b\":{},\"claimed\":{}}}", jstr(&format!("{:?}", e)), jstr(&format!("{:?}", ta)), jstr(&format!("{:?}", tb)), jstr(&format!("{:?}", e.value())))); }
+            if let Some((bad, why)) = first_unsound_v(&e, &truth, &p) {
+                let ob = format!("value_expr|Expression::propagate_values|bounded|{}", kind(bad));
+                if seen_ob.insert(ob.clone()) {
+                    viol.push(format!("{{\"unit\":\"value_expr\",\"fn\":\"Expression::propagate_values\",\"obligation\":{},\"input\":{{\"expr\":{},\"a\":{},\"env_has_a\":{},\"b\":{},\"env_has_b\":{}}},\"what\":{},\"replay\":\"replay_ps bounded value_expr\"}}",
+                        jstr(&ob), jstr(&format!("{:?}", sh)), jstr(&format!("{:?}", ta)), ea, jstr(&format!("{:?}", tb)), eb,
+                        jstr(&format!("`{:?}` with a = {:?} ({}), b = {:?} ({}): the {} node `{:?}` {}", sh, ta, if ea { "known" } else { "unknown" }, tb, if eb { "known" } else { "unknown" }, kind(bad), bad, why))));
+                }
+            }
+        }
+    } } } }
+    println!("{{\"unit\":\"value_expr\",\"evaluations\":{},\"distinct_nontrivial\":{},\"exhaustive\":true,\"rule\":{},\"bound\":{},\"samples\":[{}],\"violations\":[{}]}}",
+        evals, nontrivial,
+        jstr("Expression::propagate_values (real compiled code, BN254) to a fixpoint on each (expression shape, truth, environment); every claimed constant must equal the expression's value under Circom's semantics for the true variable values (a phi's claim must hold for every argument); non-trivial = the root received a constant"),
+        jstr(&format!("{} expression shapes (literals 0, 1, 5, p-1 and variables a, b under {} infix and 3 prefix operators, phi, ternaries with field and boolean conditions, boolean connectives of comparisons, nested arithmetic) x 64 sound environments (a, b in {{0, 5, p-1, true}}, each known or unknown)", shapes.len(), ops.len())),
+        samples.join(","), viol.join(","));
+}
+
 fn main() {
     std::panic::set_hook(Box::new(|_| {}));
     let args: Vec<String> = std::env::args().collect();
@@ -439,6 +567,7 @@ fn main() {
         (Some("bounded"), Some("degree")) => degree(tier),
         (Some("bounded"), Some("degree_expr")) => degree_expr(tier),
         (Some("bounded"), Some("dom")) => dom_bounded(tier, seed),
+        (Some("bounded"), Some("value_expr")) => value_expr(tier),
         (Some("replay-dom"), Some(nn)) => {
             let n: usize = nn.parse().unwrap();
             let mut adj = vec![vec![false; n]; n];
